@@ -120,7 +120,19 @@ class Index:
         """keyword writes `field=` in calls, plus the dynamic writers: `_replace(**d)` (any field) and `Cls(**d)` when the
         class declares the field"""
         self._build()
-        out = list(self._kw.get(field, [])) + list(self._kw.get("*", []))
+        out = list(self._kw.get(field, []))
+        for site in self._kw.get("*", []):
+            # a computed field name has to come from somewhere: the dynamic write counts for `field` only if that name occurs as a
+            # string constant in the module of the site (a table of field names, a literal key)
+            consts = getattr(site.module, "_str_consts", None)
+            if consts is None:
+                consts = {n.value for n in ast.walk(site.module.tree) if isinstance(n, ast.Constant) and isinstance(n.value, str)}
+                try:
+                    site.module._str_consts = consts
+                except Exception:
+                    pass
+            if field in consts:
+                out.append(site)
         for cname, sites in self._kw_ctor.items():
             for m in self.repo.modules.values():
                 c = m.classes.get(cname)
